@@ -134,9 +134,9 @@ Definition routed (d : odfdoc) : odfdoc :=
     (fold_left (sec_apply PnMeta) (secs_meta d) (fold_left (sec_apply PnSettings) (secs_settings d) (empty_doc (d_mime d))))).
 
 Lemma load_is_routed d : sections_ok d -> NoDup (all_regs d) ->
-  i_load_doc (d_mime d) (p_settings d) (p_meta d) (p_content d) (p_styles d) = routed d.
+  i_load_parts (d_mime d) (p_settings d) (p_meta d) (p_content d) (p_styles d) = routed d.
 Proof.
-  intros HS Hd. unfold i_load_doc, load_doc, routed, all_regs in *.
+  intros HS Hd. unfold i_load_parts, load_parts, routed, all_regs in *.
   destruct (part_meta d HS) as (q2 & a2 & E2 & G2). destruct (part_content d HS) as (q3 & a3 & E3 & G3). destruct (part_styles d HS) as (q4 & a4 & E4 & G4).
   unfold p_meta, p_content, p_styles. rewrite E2, E3, E4. cbn [load_part].
   (* settings.xml, if it is there *)
@@ -221,15 +221,18 @@ Proof.
 Qed.
 
 Theorem load_saved d : sections_ok d -> NoDup (all_regs d) ->
-  i_load_doc (d_mime d) (p_settings d) (p_meta d) (p_content d) (p_styles d) = expected d.
-Proof. intros HS Hd. rewrite (load_is_routed d HS Hd). now apply routed_expected. Qed.
+  i_load_doc (d_mime d) (p_settings d) (p_meta d) (p_content d) (p_styles d) = finish (expected d).
+Proof.
+  intros HS Hd. unfold i_load_doc, load_doc. fold (i_load_parts (d_mime d) (p_settings d) (p_meta d) (p_content d) (p_styles d)).
+  rewrite (load_is_routed d HS Hd). f_equal. now apply routed_expected.
+Qed.
 
 (* from the bytes: each part parses to the tree it serialises (C01/C02), and the loader takes it from there *)
 Theorem save_load_roundtrip env d : sections_ok d -> NoDup (all_regs d) ->
   doc_ok F env (settings_tree d) = true -> doc_ok F env (meta_tree tv d) = true ->
   doc_ok F env (content_tree RA d) = true -> doc_ok F env (styles_tree RA d) = true ->
   i_load_doc (d_mime d) (if has_kids (d_settings d) then xml_parse (i_settingsxml env d) else None)
-             (xml_parse (snd (i_metaxml env d))) (xml_parse (i_contentxml env d)) (xml_parse (i_stylesxml env d)) = expected d.
+             (xml_parse (snd (i_metaxml env d))) (xml_parse (i_contentxml env d)) (xml_parse (i_stylesxml env d)) = finish (expected d).
 Proof.
   intros HS Hd O1 O2 O3 O4. rewrite (settings_roundtrip env d O1), (meta_roundtrip env d O2), (content_roundtrip env d O3), (styles_roundtrip env d O4).
   apply (load_saved d HS Hd).
@@ -275,7 +278,7 @@ Proof.
   repeat constructor; cbn; intuition discriminate.
 Qed.
 Example ex_runs :
-  i_load_doc (d_mime ex_d) None (xml_parse (snd (i_metaxml ex_env ex_d))) (xml_parse (i_contentxml ex_env ex_d)) (xml_parse (i_stylesxml ex_env ex_d)) = expected ex_d.
+  i_load_doc (d_mime ex_d) None (xml_parse (snd (i_metaxml ex_env ex_d))) (xml_parse (i_contentxml ex_env ex_d)) (xml_parse (i_stylesxml ex_env ex_d)) = finish (expected ex_d).
 Proof. vm_compute. reflexivity. Qed.
 
 (* ================= C05: any package ================= *)
@@ -294,9 +297,9 @@ Proof. destruct p as [[q a secs|t|t]|]; reflexivity. Qed.
 (* whatever the parts hold - any root, any order and number of sections, text between them, unknown elements - as long as
    no registered style name occurs twice *)
 Theorem load_any mime se me co st : part_ok se -> part_ok me -> part_ok co -> part_ok st -> NoDup (any_regs se me co st) ->
-  i_load_doc mime se me co st = loaded_any mime se me co st.
+  i_load_doc mime se me co st = finish (loaded_any mime se me co st).
 Proof.
-  intros G1 G2 G3 G4 Hd. unfold i_load_doc, load_doc, loaded_any, any_regs in *. rewrite !load_part_secs.
+  intros G1 G2 G3 G4 Hd. unfold i_load_doc, load_doc. f_equal. unfold load_parts, loaded_any, any_regs in *. rewrite !load_part_secs.
   set (n1 := flat_map (sec_regs PnSettings) (secs_of se)) in *. set (n2 := flat_map (sec_regs PnMeta) (secs_of me)) in *.
   set (n3 := flat_map (sec_regs PnContent) (secs_of co)) in *. set (n4 := flat_map (sec_regs PnStyles) (secs_of st)) in *.
   rewrite (load_sections_id i_redirected PnSettings (secs_of se) s0 _ (eq_refl : ls_fix s0 = []) G1) by (cbn [ls_names s0 app]; fold n1; now apply NoDup_app_l in Hd).
@@ -355,6 +358,15 @@ Proof.
   assert (H4 : is_element (get_sec sid (fold_left (sec_apply PnContent) (secs_of co) (fold_left (sec_apply PnMeta) (secs_of me) (fold_left (sec_apply PnSettings) (secs_of se) (empty_doc mime))))) = true) by (now rewrite F3, is_element_add).
   rewrite (fold_apply_section PnStyles sid (secs_of st) _ H4), F3, F2, F1, E0, !add_kids_app. reflexivity.
 Qed.
+
+(* the last step (identical automatic styles kept once) touches the automatic styles only *)
+Theorem finish_section sid d : sid <> SAuto -> get_sec sid (finish d) = get_sec sid d.
+Proof. destruct sid; intros H; try reflexivity. contradiction. Qed.
+Theorem finish_auto d q a ks : d_auto d = Elem q a ks -> d_auto (finish d) = Elem q a (dedupe [] ks).
+Proof. intros E. unfold finish. cbn [d_auto]. now rewrite E. Qed.
+(* and nothing at all when no two named automatic styles share element type and name *)
+Definition auto_key (t : node) : option (qname * str) :=
+  match t with Elem q a _ => match get_att q_stylename a with Some n => Some (q, n) | None => None end | _ => None end.
 
 (* the font declarations of content.xml never reach the document; those of styles.xml do *)
 Theorem content_font_decls_skipped q a ks : qname_eqb q (q_off "font-face-decls") = true -> kids_routed PnContent SFfd [Elem q a ks] = [].
